@@ -37,7 +37,10 @@ def main():
             # no change applied: the check must stay silent (recorded, not part of the table)
             c = name.split("-")[1]
             t0 = time.time()
-            rc, out = sh("cd %s && ./check %s --tier quick" % (ROOT, c))
+            tier = "thorough" if name.startswith("CLEAN-T-") else "quick"
+            if tier == "thorough":
+                c = name.split("-")[2]
+            rc, out = sh("cd %s && ./check %s --tier %s" % (ROOT, c, tier), timeout=6 * 3600)
             viol = [l for l in out.split("\n") if l.startswith("VIOLATION") or "FAIL[" in l]
             results[name] = dict(clean=True, exit=rc, alarms=viol[:5], wall_s=round(time.time() - t0))
             print(name, "exit", rc, viol[:2], flush=True)
